@@ -252,8 +252,77 @@ func firstDiff(a, b string) string {
 	return fmt.Sprintf("one is a prefix of the other (%d vs %d lines)", len(la), len(lb))
 }
 
+// truncationSweep is the "for every byte offset k" part of the statement on one fixed pair of versions:
+// the sources are v2, derived.gen.go is the first k bytes of the output for v1 (previous) or for v2 (new).
+// The thorough tier covers every k (split over the shards), the quick tier every stride-th one.
+func truncationSweep(c *pkit.Ctx) {
+	mod := "module subj\n\ngo 1.23\n"
+	calls := "package p\n\nfunc eq(a, b *T) bool {\n\treturn deriveEqual(a, b)\n}\n\nfunc keys(m map[K]int) []K {\n\treturn deriveSort(deriveKeys(m))\n}\n"
+	v1 := map[string]string{"go.mod": mod, "p/calls.go": calls, "p/types.go": "package p\n\ntype K string\n\ntype T struct {\n\tA int\n\tB string\n}\n"}
+	v2 := map[string]string{"go.mod": mod, "p/calls.go": calls, "p/types.go": "package p\n\ntype K int\n\ntype T struct {\n\tA int\n\tB []string\n\tC map[K]*T\n}\n"}
+	out1, ok1, e1, _ := scratchOutput(c, v1)
+	out2, ok2, e2, _ := scratchOutput(c, v2)
+	if !ok1 || !ok2 || e1 != 0 || e2 != 0 {
+		c.Rep.Inconcl("truncation sweep: the fixed packages do not generate from scratch (exit %d, %d)", e1, e2)
+		return
+	}
+	stride := 24
+	if c.Thorough() {
+		stride = 1
+	}
+	dir := c.CaseDir()
+	defer os.RemoveAll(dir)
+	gorun.WriteFiles(dir, v2)
+	dpath := filepath.Join(dir, "p", gorun.DerivedFile)
+	idx := 0
+	for _, w := range []struct {
+		which string
+		src   []byte
+	}{{"previous", out1}, {"new", out2}} {
+		for k := 0; k <= len(w.src); k += stride {
+			idx++
+			if idx%c.NShards != c.Shard%c.NShards {
+				continue
+			}
+			os.WriteFile(dpath, w.src[:k], 0o644)
+			c.Rep.Eval()
+			c.Rep.NT(fmt.Sprintf("sweep|%s|%d", w.which, k))
+			c.Rep.AddExtra("truncation_sweep_offsets", 1)
+			res := gorun.RunGoderive(dir, "./p")
+			if res.Err != nil || res.TimedOut {
+				c.Rep.Inconcl("truncation sweep: goderive did not run")
+				return
+			}
+			got, err := os.ReadFile(dpath)
+			sig := map[string]string{"check": "truncation-sweep", "which": w.which}
+			msg := ""
+			switch {
+			case res.Exit != 0:
+				sig["class"] = "run-fails"
+				msg = fmt.Sprintf("exit %d: %s", res.Exit, pkit.Trunc(res.Stderr, 400))
+			case err != nil:
+				sig["class"] = "no-file"
+				msg = "no derived.gen.go after the run"
+			case string(got) != string(out2):
+				sig["class"] = "differs-from-scratch"
+				msg = "first difference at " + firstDiff(string(out2), string(got))
+			}
+			if msg != "" {
+				files := map[string]string{}
+				for f, v := range v2 {
+					files[f] = v
+				}
+				c.FailNow(sig, fmt.Sprintf("derived.gen.go := first %d of %d bytes of the %s output, sources v2, one run: %s", k, len(w.src), w.which, msg), files,
+					map[string]any{"spelling": "./p", "old_derived_b64": base64.StdEncoding.EncodeToString(w.src[:k]), "had_old_derived": true})
+				return
+			}
+		}
+	}
+}
+
 func TestProp(t *testing.T) {
 	c := pkit.Load(prop)
+	truncationSweep(c)
 	maxSteps := 6
 	if c.Thorough() {
 		maxSteps = 10
